@@ -72,7 +72,30 @@ fn gen_env(src: &mut Src) -> Envelope {
     for _ in 0..src.below(4) {
         let p: Envelope = if src.bool() { Envelope::new(KnownValue::new(*src.pick(&[1u64, 4, 16, 51, 500]))) } else { Envelope::new(POOL[src.below(POOL.len())]) };
         let o: Envelope = match src.below(4) {
-            0 => Envelope::new(src.below(1000) as u64),
+            0 => {
+                // mostly a number; one value in ten is an array / map leaf whose ELEMENTS are tagged values
+                // with summarizers of their own (a date that makes the summarizer panic, key bundles whose
+                // summarizers decode nested tagged CBOR)
+                let n = src.below(1000);
+                match n {
+                    900..=929 => Envelope::new(CBOR::from(vec![CBOR::from("in an array"), CBOR::to_tagged_value(1u64, 1.0e300)])),
+                    930..=959 => {
+                        let pk = bc_components::PrivateKeyBase::from_data([n as u8; 32]).schnorr_public_keys();
+                        Envelope::new(CBOR::from(vec![pk.tagged_cbor(), CBOR::from(n as u64)]))
+                    }
+                    960..=979 => {
+                        // (everything here must be a function of the choice sequence: the reference processes
+                        // rebuild the same envelopes)
+                        let keys = bc_components::PrivateKeyBase::from_data([n as u8; 32]).ecdsa_public_keys();
+                        let mut m = dcbor::Map::new();
+                        m.insert(1u64, keys.tagged_cbor());
+                        m.insert(2u64, bc_components::Digest::from_image([n as u8]).tagged_cbor());
+                        Envelope::new(CBOR::from(m))
+                    }
+                    980..=999 => Envelope::new(CBOR::from(vec![CBOR::to_tagged_value(CUSTOM_TAG, "custom in an array"), bc_components::ARID::from_data([n as u8; 32]).tagged_cbor()])),
+                    _ => Envelope::new(n as u64),
+                }
+            }
             1 => Envelope::new("text").wrap_envelope(),
             2 => Envelope::new(KnownValue::new(200)),
             _ => Envelope::new("x").add_assertion(known_values::NOTE, "inner"),
